@@ -366,7 +366,7 @@ func c11Algebra(op int, store bool) {
 		res = refAlgebra(op, sa.mem, sb.mem) // a missing key is the empty set
 	}
 	// optional third operand "c": a set {q, <sym>} that may overlap a and b, or missing
-	third := !one && vfBool("third_operand")
+	third := !one && !bSame && vfBool("third_operand")
 	var sc sstate
 	if third {
 		if vfBool("c.exists") {
@@ -391,7 +391,12 @@ func c11Algebra(op int, store bool) {
 				args = append(args, bs("c"))
 			}
 		}
-		got := hExecPerm(m, args...)
+		var got rv
+		if third {
+			got = hExec(m, args...) // three operands: one (deterministic) iteration order
+		} else {
+			got = hExecPerm(m, args...)
+		}
 		if wrong {
 			vfAssert(isWrongType(got), name+"-wrongtype-reply")
 		} else {
@@ -427,7 +432,12 @@ func c11Algebra(op int, store bool) {
 			args = append(args, bs("c"))
 		}
 	}
-	got := hExecPerm(m, args...)
+	var got rv
+	if third {
+		got = hExec(m, args...)
+	} else {
+		got = hExecPerm(m, args...)
+	}
 	if wrong {
 		vfAssert(isWrongType(got), name+"-wrongtype-reply")
 		c11Post(m, "a", sa, name+"-a")
